@@ -322,6 +322,9 @@ func evalImage(bt *jrnkit.Built, img imgSpec, imgDir string) {
 
 	// (2) full store reopen + the property's predicate
 	manifest := bt.ManifestOpen
+	if len(bt.Acks) > 0 && int64(k) < bt.Acks[0].Off && !img.First {
+		manifest = nil // before the first commit's manifest flush: a fresh directory holding only the journal
+	}
 	if err := jrnkit.WriteImage(imgDir, image, manifest, nil); err != nil {
 		panic(err)
 	}
@@ -504,7 +507,7 @@ func checkWriter(bt *jrnkit.Built, kc kase) {
 	}
 }
 
-func runHistory(h jrnkit.History, only *imgSpec, hr *hx.Rng, idx int) {
+func runHistory(h jrnkit.History, only *imgSpec, hr *hx.Rng, idx int, si straceInfo) {
 	dir := filepath.Join(fastScratch(), fmt.Sprintf("h%d", idx))
 	kc := kase{Hist: h}
 	bt, err := jrnkit.Build(filepath.Join(dir, "w"), h)
@@ -543,8 +546,19 @@ func runHistory(h jrnkit.History, only *imgSpec, hr *hx.Rng, idx int) {
 	// the clean journal must recover to exactly what was acknowledged
 	clean := imgSpec{K: len(bt.File), Tail: "drop"}
 	imgDir := filepath.Join(dir, "img")
+	// the first-commit window (manifest already names the in-flight root): a crash image with journal
+	// prefix k and that manifest is possible only if the syscall log shows the manifest renamed
+	// before the first acknowledgement, and only for k >= the journal bytes fsynced by then
+	firstWindow := func(k int) bool {
+		return si.OK && si.ManifestFirst && len(bt.Acks) > 0 && int64(k) < bt.Acks[0].Off && int64(k) >= si.DurableAtManifest
+	}
 	if only != nil {
-		evalImage(bt, *only, imgDir)
+		o := *only
+		if o.First && !firstWindow(o.K) {
+			e.Rep.Hit("first-commit-window:closed")
+			o.First = false
+		}
+		evalImage(bt, o, imgDir)
 		return
 	}
 	evalImage(bt, clean, imgDir)
@@ -581,7 +595,8 @@ func runHistory(h jrnkit.History, only *imgSpec, hr *hx.Rng, idx int) {
 			default:
 				img.TailLen = hx.Pick(hr, []int{1, 2, 5, 40, hr.Intn(200), hr.Intn(gl)})
 			}
-			img.First = int64(k) < firstAck
+			img.First = firstWindow(k)
+			_ = firstAck
 			evalImage(bt, img, imgDir)
 		}
 	}
@@ -718,6 +733,63 @@ func codecCase(rec []byte) {
 	}
 }
 
+// windowCase: the real possibleDataLossCheck (2x-buffer window, refills) against the model of the
+// windowed loop and against the whole-suffix scan, on streams several windows long.
+func windowCase(r *hx.Rng) {
+	B := uint32(hx.Pick(r, []int{64, 96, 128, 256, 700}))
+	old := nbs.VerifJrnSetBuffSize(B)
+	defer nbs.VerifJrnSetBuffSize(old)
+	var data []byte
+	parts := r.Range(1, 8)
+	for i := 0; i < parts; i++ {
+		switch r.Intn(6) {
+		case 0:
+			data = append(data, make([]byte, r.Intn(int(3*B)))...)
+		case 1:
+			var h hash.Hash
+			copy(h[:], r.Bytes(20))
+			data = append(data, nbs.VerifJrnEncodeRoot(h, r.U64()>>20)...)
+		case 2:
+			h, cc := nbs.VerifJrnCompress(r.Bytes(r.Intn(int(B))))
+			data = append(data, nbs.VerifJrnEncodeChunk(h, cc)...)
+		case 3:
+			g := r.Bytes(r.Intn(int(3 * B)))
+			if len(g) >= 4 {
+				binary.BigEndian.PutUint32(g, uint32(r.Intn(int(2*B))))
+			}
+			data = append(data, g...)
+		case 4: // a length field that points just past the window edge
+			g := make([]byte, 4)
+			binary.BigEndian.PutUint32(g, B-uint32(r.Intn(8)))
+			data = append(data, g...)
+			data = append(data, r.Bytes(r.Intn(int(2*B)))...)
+		default:
+			data = append(data, r.Bytes(r.Intn(40))...)
+		}
+	}
+	kc := kase{Op: "window", Rec: hx.Hex(data), Hist: jrnkit.History{B: B}}
+	impl := hx.Recover(func() string {
+		dl, err := nbs.VerifJrnDataLossCheck(data)
+		if err != nil {
+			return errClass(err)
+		}
+		return fmt.Sprint(dl)
+	})
+	mw := m.Ask(fmt.Sprintf("wdlc %d %s", B, hx.Hex(data)))
+	ms := m.Ask(fmt.Sprintf("dlc %d %s", B, hx.Hex(data)))
+	e.Rep.Count("window "+hx.Hex(data), len(data) > int(2*B))
+	e.Rep.Hit("window:" + impl)
+	if len(data) > int(4*B) {
+		e.Rep.Hit("window:stream>2-windows")
+	}
+	if impl != mw {
+		e.Rep.Disagree(kc, impl, mw, "possibleDataLossCheck vs windowed model")
+	}
+	if mw != ms {
+		e.Rep.Disagree(kc, mw, ms, "windowed model vs whole-suffix model (contradicts theorem windowed_dataloss_check)")
+	}
+}
+
 // ---------------------------------------------------------------- main
 
 var fastDir string
@@ -779,6 +851,10 @@ func main() {
 		codecCase(genRecord(cr))
 	}
 	nbs.VerifJrnSetBuffSize(oldB)
+	wr := e.Rng.Fork()
+	for i := 0; i < e.N(600, 20000); i++ {
+		windowCase(wr)
+	}
 	hrng := e.Rng.Fork()
 	nh := e.N(8, 80)
 	for i := 0; i < nh; i++ {
@@ -786,10 +862,11 @@ func main() {
 		h := genHistory(hr, uint64(i+1)*100000+e.Seed*1000000007)
 		t0 := time.Now()
 		ev0 := e.Rep.Evaluations
-		runHistory(h, nil, hr, i)
+		var si straceInfo
 		if i < e.N(3, 30) {
-			straceCheck(h, i)
+			si = straceCheck(h, i)
 		}
+		runHistory(h, nil, hr, i, si)
 		if os.Getenv("VERIF_DEBUG") != "" {
 			fmt.Fprintf(os.Stderr, "history %d: B=%d commits=%d images=%d %.1fs\n", i, effB(h), len(h.Commits), e.Rep.Evaluations-ev0, time.Since(t0).Seconds())
 		}
@@ -805,5 +882,13 @@ func runCase(raw json.RawMessage, idx int) {
 		codecCase(hx.Unhex(kc.Rec))
 		return
 	}
-	runHistory(kc.Hist, kc.Img, hx.NewRng(uint64(idx)+99), idx)
+	if kc.Op == "window" {
+		windowCase(hx.NewRng(uint64(idx) + 5))
+		return
+	}
+	var si straceInfo
+	if kc.Img != nil && kc.Img.First {
+		si = straceCheck(kc.Hist, idx)
+	}
+	runHistory(kc.Hist, kc.Img, hx.NewRng(uint64(idx)+99), idx, si)
 }
